@@ -227,8 +227,11 @@ def job_round(db, job):
                     bad.append('under %s: overflow signal although the rounded value %s is representable' % (cmode, '0' if ok0 else '+-10^%d' % -n))
                 continue
             if failure == 'explicit':
-                bad.append('explicit overflow panic outside the far region: %s' % show_outcome(o))
-                continue
+                ov = notes_of(o, 'overflows')
+                if len(ov) != 1:
+                    bad.append('InternalOverflow without a recorded overflow: %s' % show_outcome(o))
+                    continue
+                failure = ov[0][1]
             if s_ <= 38:
                 ok, msg = expect_rnd(s, dict(failure), x.p, pconst(10 ** s_), 'thread', mult, raw=True)
                 if not ok:
